@@ -25,7 +25,7 @@ type inprocResult struct {
 // its own, under the FIFO policy of the seeded scheduler (every goroutine the
 // command starts is owned; an os.Exit of the command is a recorded event, not
 // the end of the worker), with the map-order and clock seams set as asked.
-func runInProc(ctx *Ctx, args []string, files map[string]string, mapseed uint64, clock int64) (res inprocResult) {
+func runInProc(ctx *Ctx, args []string, files map[string]string, mapseed uint64, clock int64, left ...map[string][]byte) (res inprocResult) {
 	c11RunSeq++
 	dir, err := os.MkdirTemp(".", fmt.Sprintf("inproc-%d-", c11RunSeq))
 	if err != nil {
@@ -35,6 +35,15 @@ func runInProc(ctx *Ctx, args []string, files map[string]string, mapseed uint64,
 	abs, _ := filepath.Abs(dir)
 	for n, s := range files {
 		os.WriteFile(filepath.Join(dir, n), []byte(s), 0644)
+	}
+	// what an earlier execution left in the directory (outputs of the same names: they are compared like any output)
+	for _, m := range left {
+		for n, b := range m {
+			if n != "stdout.txt" {
+				os.MkdirAll(filepath.Dir(filepath.Join(dir, n)), 0755)
+				os.WriteFile(filepath.Join(dir, n), b, 0644)
+			}
+		}
 	}
 	verifrt.SetMapSeed(mapseed, true)
 	verifrt.SetClock(clock, true)
